@@ -93,6 +93,25 @@ func (h *headingXML) UnmarshalXML(d *xml.Decoder, start xml.StartElement) error 
 	return err
 }
 
+// UnmarshalXML decodes a span as the inline container it is: besides character
+// data it may hold <text:s>, <text:tab>, <text:line-break>, hyperlinks and
+// further spans. Their text becomes part of the span's text, in document order.
+func (s *spanXML) UnmarshalXML(d *xml.Decoder, start xml.StartElement) error {
+	s.XMLName = start.Name
+	s.StyleName = attrValue(start, "style-name")
+	content, err := decodeInlineContent(d)
+	var text strings.Builder
+	for _, piece := range content {
+		if piece.Span != nil {
+			text.WriteString(piece.Span.Text)
+		} else {
+			text.WriteString(piece.Text)
+		}
+	}
+	s.Text = text.String()
+	return err
+}
+
 // attrValue returns the value of the attribute with the given local name.
 func attrValue(start xml.StartElement, local string) string {
 	for _, a := range start.Attr {
